@@ -28,7 +28,7 @@ class C01:
         sc_kinds = rng.sample(G.SC_KINDS, rng.randint(2, 4))
         th_pool = rng.sample(G.TH_KINDS, rng.randint(3, 6))
         faults = {k: (rng.random() < p) for k, p in
-                  (('F1', 0.25), ('F6', 0.4), ('F8', 0.25), ('F9', 0.25))}
+                  (('F1', 0.25), ('F6', 0.4), ('F8', 0.4), ('F9', 0.25))}
         if rng.random() < 0.33:
             faults = {k: False for k in faults}
         maxside = rng.choice([6, 10, 16])
@@ -199,9 +199,10 @@ class C01:
                 continue
             armed = False
             if faults['F8'] and t['thkind'] in ('Multisphere', 'auto') and \
-                    t['sckind'] == 'spheres' and c < 0.3:
+                    t['sckind'] == 'spheres' and c < 0.5:
                 b.emit('arm_solver_fault',
-                       {'n': 0, 'mode': rng.choice(['noconv', 'nan'])})
+                       {'n': 0, 'mode': rng.choice(['noconv', 'nan']),
+                        'count': rng.choice([1, 1, 2, 3])})
                 armed = True
             interrupted = False
             if faults['F9'] and not armed and rng.random() < 0.12:
